@@ -157,6 +157,7 @@ def build(tier, seed):
     set_tier(tier)
     from contracts import readerblocks
     tasks = [a_task(PROP, _analyse), a_task(PROP, _ics), call_site_task(), form_flag_task(), form_bd_task(),
+             Task(f"{PROP}.S.blank_lines", PROP, "FortranLine.__convert", lambda: __import__("contracts.plumbing", fromlist=["x"]).blank_lines_stay_blank(PROP, lambda: __import__("bounded.c14", fromlist=["x"]).alternate_block_then_blank_line())),
              Task(f"{PROP}.S.include", PROP, "FortranReader.include", lambda: readerblocks.include_forwards_configuration(PROP, names=("fixed", "length_limit"), replay=lambda: __import__("bounded.c14", fromlist=["x"]).included_fixed_form())),
              bounded_task(seed, tier)]
     meta = {
